@@ -16,19 +16,21 @@ func init() {
 	register(&Rule{
 		ID:    "C17",
 		Title: "Accepted blocks carry a BFT quorum of signatures",
-		Pkgs:  []string{"process/headerCheck", "fallback", "crypto/signing/multisig"},
+		Pkgs:  []string{"process/headerCheck", "fallback", "crypto/signing/multisig", "consensus/spos", "consensus/spos/bls"},
 		Explain: "Decides structural conditions of the quorum check. (S1) every success exit of HeaderSigVerifier.VerifySignature lies behind: a non-empty bitmap test, the leader-bit test (bitmap[0]&1), a checked " +
 			"verifyConsensusSize for the consensus group of the header, and the multi-signature Verify of a verifier created for that same group (tail-returned). (S2) verifyConsensusSize returns nil only when " +
 			"the bitmap length equals the expected size derived from the group size and the counted signers reach a threshold derived from core.GetPBFTThreshold / GetPBFTFallbackThreshold of the group size. " +
 			"(S3, member-bounded count) the value compared with the threshold counts only bits that designate a member: accepted idioms are a per-member loop bounded by the group size, or a population count of " +
 			"masked bytes; a population count over raw bitmap bytes also counts the padding bits of the last byte, which the multi-signature verifier ignores, so fewer real signers than the threshold are accepted. " +
 			"(S3) the lower fallback threshold is earned only by a metachain start-of-epoch header whose previous header was found, and the round distance is not an unguarded unsigned subtraction. (S4) blsMultiSigner.Verify tests every member index once (counter advanced by exactly one, no early exit) and adds the member's key on every pass where the bitmap test succeeded, so the keys verified are the members the quorum test counted. " +
+			"Writer and readers of the signers bitmap agree: every access b[x/8] &/| m has m = 1 << (x % 8) for the same x. " +
 			"Not decided (value-level): distinctness of group members, the BLS aggregation itself.",
 		Run: runC17,
 	})
 }
 
 func runC17(c *core.Ctx) {
+	c17BitmapAccessorsAgree(c)
 	const pkg = "process/headerCheck"
 	c17Fallback(c)
 	c17MultisigCoversBitmap(c)
@@ -463,4 +465,79 @@ func c17MultisigCoversBitmap(c *core.Ctx) {
 	c.Check(okApp, "C17/verified-keys-are-the-bitmap-members", "blsMultiSigner.Verify/member-key-added", test.Pos(),
 		"every pass on which isIndexInBitmap succeeded appends to the key list", whyApp)
 	c.Floor("C17/verified-keys-are-the-bitmap-members", 2)
+}
+
+// c17BitmapAccessorsAgree: the signers' bitmap is written by the consensus state and read by the
+// end-round subround and by the multi-signer; all of them address member x as bit (x mod 8) of byte
+// (x div 8). Every access of the form b[x/8] &/| m in those packages has m = 1 << (x % 8) for the
+// same x: a mask built any other way (e.g. `1<<uint8(x)%8`, which Go parses as (1<<x)%8) selects no
+// member beyond position 2, or the wrong one, and the verified key set is no longer the bitmap's.
+func c17BitmapAccessorsAgree(c *core.Ctx) {
+	n := 0
+	for _, rel := range []string{"crypto/signing/multisig", "consensus/spos", "consensus/spos/bls"} {
+		for _, fn := range c.P.FuncsOfPkg(rel) {
+			k := 0
+			core.Instrs(fn, func(in ssa.Instruction) {
+				bo, ok := in.(*ssa.BinOp)
+				if !ok || (bo.Op != token.AND && bo.Op != token.OR && bo.Op != token.AND_NOT) {
+					return
+				}
+				// one operand is b[q] with q = x / 8 (or x >> 3)
+				byteOf := func(v ssa.Value) ssa.Value {
+					ld, ok := v.(*ssa.UnOp)
+					if !ok || ld.Op != token.MUL {
+						return nil
+					}
+					ia, ok := ld.X.(*ssa.IndexAddr)
+					if !ok {
+						return nil
+					}
+					q, ok := stripConv(ia.Index).(*ssa.BinOp)
+					if !ok {
+						return nil
+					}
+					d, isC := core.ConstInt(q.Y)
+					if isC && ((q.Op == token.QUO && d == 8) || (q.Op == token.SHR && d == 3)) {
+						return stripConv(q.X)
+					}
+					return nil
+				}
+				x, m := byteOf(bo.X), bo.Y
+				if x == nil {
+					x, m = byteOf(bo.Y), bo.X
+				}
+				if x == nil {
+					return
+				}
+				k++
+				n++
+				c.Sites++
+				c.Analysed(fname(fn))
+				good, why := false, "the mask is not 1 << (...)"
+				if sh, isSh := stripConv(m).(*ssa.BinOp); isSh && sh.Op == token.SHL {
+					one, isOne := core.ConstInt(sh.X)
+					r, isR := stripConv(sh.Y).(*ssa.BinOp)
+					switch {
+					case !isOne || one != 1:
+						why = "the value shifted is not the constant 1"
+					case !isR:
+						why = "the shift count is " + core.ExprKey(sh.Y) + ", not (x mod 8)"
+					default:
+						d, isC := core.ConstInt(r.Y)
+						if isC && ((r.Op == token.REM && d == 8) || (r.Op == token.AND && d == 7)) && core.ExprKey(stripConv(r.X)) == core.ExprKey(x) {
+							good = true
+						} else {
+							why = "the shift count is " + core.ExprKey(sh.Y) + ", not (x mod 8) of the x that selects the byte"
+						}
+					}
+				} else if isSh {
+					why = "the mask is " + core.ExprKey(m)
+				}
+				c.Check(good, "C17/bitmap-accessors-agree", fmt.Sprintf("%s/bit#%d", fname(fn), k), bo.Pos(),
+					"member x is bit (x mod 8) of byte (x div 8)",
+					"a bitmap access addresses byte x/8 but "+why+": writer and readers of the signers' bitmap no longer agree on which bit is member x, so the keys verified are not the members the bitmap names")
+			})
+		}
+	}
+	c.Floor("C17/bitmap-accessors-agree", 3)
 }
